@@ -464,6 +464,8 @@ class StmtMixin:
                 yield from self.exec_block(node.orelse, s3, fr)
 
     def st_Return(self, node, st, fr):
+        if getattr(node, "_retlabel", None):
+            self.run_asserts("%s:before" % node._retlabel, st, fr, node)
         if node.value is None:
             yield ("return", st, None)
             return
@@ -702,6 +704,7 @@ class StmtMixin:
                 e.path.append("%s:exit" % label)
                 if isfor and is_source:
                     e.ghost["consumed"] = seq[0]
+                self.run_asserts("%s:after" % label, e, fr, node)
                 if node.orelse:
                     yield from self.exec_block(node.orelse, e, fr)
                 else:
